@@ -79,4 +79,70 @@ def reprOps (Ts : List Transformer) : TStates Ts → Option Horizon → List Op 
       let (ts', r') ← reprOps Ts ts1 (fitFh cur fh) r
       pure (ts', .fit yt fh :: r')
 
+/-- a history without `fit` / without `update` -/
+def noFit (ops : List Op) : Prop := ∀ op ∈ ops, isFit op = false
+def noUpdate (ops : List Op) : Prop := ∀ op ∈ ops, isUpdate op = false
+
+/-- The spy: a forecaster machine whose state IS the list of calls it has received (every call
+succeeds, forecasts are empty).  Instantiating a theorem about all machines at the spy turns
+"the member's state" into "the calls the member received". -/
+def spy : Forecaster where
+  S := List Op
+  init := []
+  fit := fun s y fh => pure (s ++ [.fit y fh])
+  update := fun s y up => pure (s ++ [.update y up])
+  predict := fun s fh => pure (s ++ [.predict fh], [])
+
+/-- a stateless transformer that doubles every value (inverse: halves) and has an `update` method -/
+def doubler : Transformer where
+  S := Unit
+  init := ()
+  fit := fun _ _ => pure ()
+  transform := fun _ z => pure (z.map (fun q => (q.1, q.2 * 2)))
+  inverse := fun _ z => pure (z.map (fun q => (q.1, q.2 / 2)))
+  update := fun _ _ _ => pure ()
+  hasUpdate := true
+  skipInverse := false
+
+/-- THE INVARIANT (full strength): whatever happened before, after `fit y fh0` followed by any
+fit-free history on the pipeline, the final forecaster has been through exactly the history that
+the transformers alone make of it (`reprOps`): it was fitted (as a fresh clone) on the fully
+transformed series and then only ever updated with batches in that same transformed representation. -/
+def InnerSeesOnlyTransformed (fixed : Bool) : Prop :=
+  ∀ (Ts : List Transformer) (F : Forecaster) (st0 : (pipelineG fixed Ts F).S) (ts0 : TStates Ts)
+    (y : Series) (fh0 : Option Horizon) (ops : List Op), noFit ops →
+    ∀ (st : (pipelineG fixed Ts F).S) (outs : List (Option Series)) (log : Log),
+    ((pipelineG fixed Ts F).run st0 (.fit y fh0 :: ops)).run = .ok ((st, outs), log) →
+    ∃ b ts s iops lt oi li, st = (b, some (ts, s)) ∧
+      (reprOps Ts ts0 st0.1.fh (.fit y fh0 :: ops)).run = .ok ((ts, iops), lt) ∧
+      (F.run F.init iops).run = .ok ((s, oi), li)
+
+/-- a regressor that accepts everything and predicts 0 -/
+def nullReg : Regressor where
+  S := Unit
+  init := ()
+  fit := fun _ _ _ => pure ()
+  predict := fun _ rows => pure (rows.map (fun _ => 0))
+
+/-- an out-of-sample horizon that fits into a series of `n` observations: strictly increasing,
+non-empty, every step ≥ 1, largest step ≤ n -/
+def OutOfSample (f : Horizon) (n : Nat) : Prop :=
+  f.Pairwise (· < ·) ∧ f ≠ [] ∧ (∀ h ∈ f, 0 < h) ∧ Split.fhMax f ≤ (n : Int)
+
+/-- THE STACKING CLAUSE for the horizons satisfying `P`: a successful `fit y fh` has
+* split the positions `0 … n−1` into a training window `train` and a hold-out window `test` that
+  lies entirely AFTER it, reaches the last observation and not beyond,
+* fitted fresh clones of all members on `y.iloc[train]` only, taken their forecasts `ps`,
+* fitted a fresh clone of the meta-regressor on exactly (rows of `ps`, `y.iloc[test]`), and keeps it. -/
+def StackTrainsOnHoldoutOnly (P : Horizon → Nat → Prop) : Prop :=
+  ∀ (names : List String) (Fs : List Forecaster) (G : Regressor) (st0 : (stacking names Fs G).S)
+    (y : Series) (fh : Option Horizon) (b : Base) (st : Option (States Fs × G.S)) (log : Log),
+    ((stacking names Fs G).fit st0 y fh).run = .ok ((b, st), log) →
+    ∀ f, b.fh = some f → P f y.length →
+    ∃ train test yF yM ss ss' ps g l1 l2 l3 ss2,
+      holdoutSplit y.length f = .ok (train, test) ∧ iloc y train = .ok yF ∧ iloc y test = .ok yM ∧
+      (fitAll Fs yF (some f)).run = .ok (ss, l1) ∧ (predictAll Fs ss none).run = .ok ((ss', ps), l2) ∧
+      (G.fit G.init (rowsOf (nRows ps) ps) (values yM)).run = .ok (g, l3) ∧ st = some (ss2, g) ∧
+      (∀ p ∈ test, ∀ q ∈ train, q < p) ∧ ((y.length : Int) - 1 ∈ test) ∧ (∀ p ∈ test, p ≤ (y.length : Int) - 1)
+
 end SkVerif.Compose
